@@ -73,3 +73,21 @@ M("M_C04_e", ["C04"], "cotengra/core.py",
   "        tree.multiplicity //= si.size",
   "        tree.multiplicity //= (si.size if si.project is None else tree.size_dict[ind])",
   "restore_ind of a projected index divides the multiplicity by the full size", ["tests/test_tree.py"])
+
+
+# ------------------- per-property files: tools/mutations_cXX.py -------------------
+# each defines  register(M)  and calls M(id, props, file, old, new, note, tests=[...], harmless=False)
+def _load_extra():
+    import glob
+    import importlib.util
+    import os
+
+    here = os.path.dirname(os.path.abspath(__file__))
+    for path in sorted(glob.glob(os.path.join(here, "mutations_c*.py"))):
+        spec = importlib.util.spec_from_file_location(os.path.basename(path)[:-3], path)
+        mod = importlib.util.module_from_spec(spec)
+        spec.loader.exec_module(mod)
+        mod.register(M)
+
+
+_load_extra()
